@@ -14,8 +14,13 @@ every declaration minifier).
 * `selToks` — `minifySelectors` (as of 71d92ee): identifiers outside attribute selectors are lower-cased unless they
   follow a `.`, precede a `|` (namespace prefix) or are arguments of a functional pseudo-class with case-sensitive
   arguments (`level`/`keepLevel`); inside `[…]` a string whose content `css.IsIdent` accepts and that has no backslash
-  is written without quotes, a one-letter identifier `i`/`I`/`s`/`S` is preceded by a space.
+  is written without quotes, an identifier directly behind an identifier or string is preceded by a space (0ab4bcb).
 * `importURL` — the `@import url(x)` → `@import "x"` rewrite (as of addcaae).
+* raw tokens (`<!--`, `-->`, the content of the block of an at-rule the parser does not know): written as they are;
+  since 71288ab a space is written first when the parser skipped a comment between the previous raw token and this
+  one (`Parser.Offset()` ≠ end of the previous token + length): the harness passes this as a non-empty `vals` of the
+  token event (the code writes that space in front of a queued `;`, the model behind it: a raw token never follows a
+  queued `;` without an event in between, and then there is no gap).
 * `bangComment`, `customValue`, `collapseWs`, `trimWs` — comments and custom properties
   (`parse.ReplaceMultipleWhitespace`, `parse.TrimWhitespace` of the dependency, by behaviour).
 -/
@@ -105,9 +110,6 @@ def caseInsensitiveArgs : List (List Char) :=
 
 def isBar (t : Tok) : Bool := t.tt == .delim && t.data.head? == some '|'
 
-/-- the one-letter flags in front of which a space is written: `c|0x20 == 'i'` or `'s'` -/
-def isFlagLetter (c : Char) : Bool := c == 'i' || c == 'I' || c == 's' || c == 'S'
-
 structure SelSt where
   inAttr : Bool
   isClass : Bool
@@ -115,38 +117,41 @@ structure SelSt where
   keepLevel : Nat
   /-- the previous token was a colon -/
   prevColon : Bool
+  /-- the previous token was an identifier or a string (`values[i-1]`) -/
+  prevIdStr : Bool
   deriving Repr, DecidableEq
 
-def SelSt.init : SelSt := ⟨false, false, 0, 0, false⟩
+def SelSt.init : SelSt := ⟨false, false, 0, 0, false, false⟩
 
 /-- the tokens `minifySelectors` writes for the selector tokens `ts` -/
 def selGo (st : SelSt) : List Tok → List Tok
   | [] => []
   | t :: r =>
     let pc := t.tt == .colon
+    let ps := t.tt == .ident || t.tt == .string
     if !st.inAttr then
       if t.tt == .ident then
         let isPrefix := match r with | n :: _ => isBar n | [] => false
-        .mk .ident (if !st.isClass && !isPrefix && st.keepLevel == 0 then lower t.data else t.data) [] ::
-          selGo { st with isClass := false, prevColon := pc } r
-      else if t.tt == .delim && t.data.head? == some '.' then t :: selGo { st with isClass := true, prevColon := pc } r
-      else if t.tt == .leftBracket then t :: selGo { st with inAttr := true, prevColon := pc } r
+        .mk .ident (if !st.isClass && !isPrefix && st.keepLevel == 0 then lower t.data else t.data) t.args ::
+          selGo { st with isClass := false, prevColon := pc, prevIdStr := ps } r
+      else if t.tt == .delim && t.data.head? == some '.' then t :: selGo { st with isClass := true, prevColon := pc, prevIdStr := ps } r
+      else if t.tt == .leftBracket then t :: selGo { st with inAttr := true, prevColon := pc, prevIdStr := ps } r
       else if t.tt == .function then
         let keep := st.keepLevel == 0 && st.prevColon && !caseInsensitiveArgs.contains (lower t.data.dropLast)
-        t :: selGo { st with level := st.level + 1, keepLevel := if keep then st.level + 1 else st.keepLevel, prevColon := pc } r
-      else if t.tt == .leftParen then t :: selGo { st with level := st.level + 1, prevColon := pc } r
+        t :: selGo { st with level := st.level + 1, keepLevel := if keep then st.level + 1 else st.keepLevel, prevColon := pc, prevIdStr := ps } r
+      else if t.tt == .leftParen then t :: selGo { st with level := st.level + 1, prevColon := pc, prevIdStr := ps } r
       else if t.tt == .rightParen then
         t :: selGo { st with keepLevel := if st.level == st.keepLevel then 0 else st.keepLevel,
-                             level := st.level - 1, prevColon := pc } r
-      else t :: selGo { st with prevColon := pc } r
+                             level := st.level - 1, prevColon := pc, prevIdStr := ps } r
+      else t :: selGo { st with prevColon := pc, prevIdStr := ps } r
     else
       if t.tt == .string && 2 < t.data.length && isIdent ((t.data.drop 1).dropLast) && !((t.data.drop 1).dropLast).contains '\\' then
-        .mk .ident ((t.data.drop 1).dropLast) [] :: selGo { st with prevColon := pc } r
-      else if t.tt == .string && 2 < t.data.length then t :: selGo { st with prevColon := pc } r
-      else if t.tt == .rightBracket then t :: selGo { st with inAttr := false, prevColon := pc } r
-      else if t.tt == .ident && t.data.length == 1 && t.data.any isFlagLetter then
-        wsTok :: t :: selGo { st with prevColon := pc } r
-      else t :: selGo { st with prevColon := pc } r
+        .mk .ident ((t.data.drop 1).dropLast) [] :: selGo { st with prevColon := pc, prevIdStr := ps } r
+      else if t.tt == .string && 2 < t.data.length then t :: selGo { st with prevColon := pc, prevIdStr := ps } r
+      else if t.tt == .rightBracket then t :: selGo { st with inAttr := false, prevColon := pc, prevIdStr := ps } r
+      else if t.tt == .ident && st.prevIdStr then
+        wsTok :: t :: selGo { st with prevColon := pc, prevIdStr := ps } r
+      else t :: selGo { st with prevColon := pc, prevIdStr := ps } r
 
 def selToks (ts : List Tok) : List Tok := selGo SelSt.init ts
 
@@ -219,6 +224,7 @@ def evBytes (decl : DeclFn) (e : Ev) : List Char :=
   | .declaration => e.data ++ ':' :: decl e.data e.vals
   | .customProperty => e.data ++ ':' :: customValue ((e.vals.head?.map (·.data)).getD [])
   | .comment => commentBytes e.data
+  | .token => (if e.vals.isEmpty then [] else [' ']) ++ e.data
   | _ => e.data
 
 /-- the loop of `minifyGrammar`; `q` = `semicolonQueued` -/
